@@ -10,11 +10,18 @@ import (
 // replayed run fails with the same first check signature. Because choice 0 is
 // always the benign default, zeroing removes faults, preemptions, segmentation
 // and workload items alike.
+//
+// Passes: truncate the tail (bisection); delta-debugging over the non-zero
+// positions (zero half, quarters, ... single positions); lower the surviving
+// values; finally try to delete short blocks (deletion shifts the meaning of
+// everything after it, so it rarely helps and comes last).
 func Shrink(orig []int32, check string, budget time.Duration, run func([]int32) *world.Result) ([]int32, int) {
 	start := time.Now()
 	execs := 0
+	const maxExecs = 3000
+	out := func() bool { return execs >= maxExecs || time.Since(start) > budget }
 	fails := func(c []int32) bool {
-		if execs >= 2000 || time.Since(start) > budget {
+		if out() {
 			return false
 		}
 		execs++
@@ -22,9 +29,13 @@ func Shrink(orig []int32, check string, budget time.Duration, run func([]int32) 
 		return len(r.Failures) > 0 && r.Failures[0].Check == check
 	}
 	cur := append([]int32{}, orig...)
-	// 0. does the original replay at all?
 	if !fails(cur) {
 		return cur, execs
+	}
+	trim := func() {
+		for len(cur) > 0 && cur[len(cur)-1] == 0 {
+			cur = cur[:len(cur)-1]
+		}
 	}
 	// 1. truncate the tail (missing choices replay as 0)
 	lo, hi := 0, len(cur)
@@ -39,80 +50,100 @@ func Shrink(orig []int32, check string, budget time.Duration, run func([]int32) 
 	if hi < len(cur) && fails(cur[:hi]) {
 		cur = cur[:hi]
 	}
-	trim := func() {
-		for len(cur) > 0 && cur[len(cur)-1] == 0 {
-			cur = cur[:len(cur)-1]
-		}
-	}
 	trim()
-	improved := true
-	for pass := 0; improved && pass < 6; pass++ {
-		improved = false
-		// 2. zero blocks
-		for _, bs := range []int{32, 8, 2, 1} {
-			for i := 0; i < len(cur); i += bs {
-				j := i + bs
-				if j > len(cur) {
-					j = len(cur)
-				}
-				allZero := true
-				for k := i; k < j; k++ {
-					if cur[k] != 0 {
-						allZero = false
-					}
-				}
-				if allZero {
-					continue
+	for round := 0; round < 3 && !out(); round++ {
+		before := nonZero(cur)
+		// 2. ddmin over the non-zero positions
+		n := 2
+		for !out() {
+			nz := nonZeroIdx(cur)
+			if len(nz) == 0 {
+				break
+			}
+			if n > len(nz) {
+				n = len(nz)
+			}
+			chunk := (len(nz) + n - 1) / n
+			progressed := false
+			for i := 0; i < len(nz) && !out(); i += chunk {
+				j := i + chunk
+				if j > len(nz) {
+					j = len(nz)
 				}
 				cand := append([]int32{}, cur...)
-				for k := i; k < j; k++ {
+				for _, k := range nz[i:j] {
 					cand[k] = 0
 				}
 				if fails(cand) {
 					cur = cand
-					improved = true
-				}
-			}
-		}
-		trim()
-		// 3. delete blocks
-		for _, bs := range []int{16, 4, 1} {
-			for i := 0; i+bs <= len(cur); {
-				cand := append(append([]int32{}, cur[:i]...), cur[i+bs:]...)
-				if fails(cand) {
-					cur = cand
-					improved = true
-				} else {
-					i += bs
-				}
-				if execs >= 2000 {
+					progressed = true
 					break
 				}
 			}
+			if progressed {
+				if n > 2 {
+					n--
+				}
+				continue
+			}
+			if chunk == 1 {
+				break
+			}
+			n *= 2
 		}
 		trim()
-		// 4. lower individual values
-		for i := 0; i < len(cur); i++ {
-			for cur[i] > 1 {
+		// 3. lower individual values
+		for i := 0; i < len(cur) && !out(); i++ {
+			for cur[i] > 1 && !out() {
 				cand := append([]int32{}, cur...)
 				cand[i] = cur[i] / 2
 				if fails(cand) {
 					cur = cand
-					improved = true
+					continue
+				}
+				cand[i] = cur[i] - 1
+				if fails(cand) {
+					cur = cand
+					continue
+				}
+				break
+			}
+		}
+		// 4. delete short blocks
+		for _, bs := range []int{8, 2, 1} {
+			for i := 0; i+bs <= len(cur) && !out(); {
+				cand := append(append([]int32{}, cur[:i]...), cur[i+bs:]...)
+				if len(cand) < len(cur) && fails(cand) {
+					cur = cand
 				} else {
-					cand[i] = cur[i] - 1
-					if fails(cand) {
-						cur = cand
-						improved = true
-					} else {
-						break
-					}
+					i += bs
 				}
 			}
 		}
-		if execs >= 2000 || time.Since(start) > budget {
+		trim()
+		if nonZero(cur) >= before {
 			break
 		}
 	}
 	return cur, execs
+}
+
+func nonZero(c []int32) int {
+	n := 0
+	for _, v := range c {
+		if v != 0 {
+			n++
+		}
+	}
+	return n
+}
+
+func nonZeroIdx(c []int32) []int {
+	var out []int
+	for i, v := range c {
+		if v != 0 {
+			out = append(out, i)
+		}
+	}
+	return out
 }
